@@ -65,22 +65,26 @@ func PlanFor(tier string) []LenPlan {
 	return DefaultPlan(tier, true)
 }
 
-// DefaultPlan: lists of length <= 2 are explored over EVERY schedule (no bound) without and
-// with every single fault. Executions with 3 type groups already have 400-840 schedules with
-// zero preemptions (every goroutine exit / WaitGroup block is a free choice among the
-// others; measured 8.4M executions for the fault-free lists of length 3 at pb=0), so longer
-// lists get lower bounds: quick runs length 3 (fault-free and every single fault) on the
-// canonical schedule; thorough adds, for full configurations, every zero-preemption
-// schedule of every fault-free list of length 3, and length 4 on the canonical schedule.
+// DefaultPlan: lists of length <= 2 over the whole alphabet are explored over EVERY schedule
+// (no bound) without and with every single fault. Executions with 3 type groups already
+// have 400-840 schedules with zero preemptions (every goroutine exit / WaitGroup block is a
+// free choice among the others; measured 7.7M executions for the fault-free lists of length
+// 3 over the core alphabet at pb=0), so longer lists get lower bounds. Length 3 on the
+// canonical schedule: fault-free over the whole alphabet (wrong-typed keys at first / middle
+// / last position of a type group), every single fault over the core alphabet (quick) or
+// the whole alphabet (thorough). Thorough adds, for the full configuration, every
+// zero-preemption schedule of every fault-free core list of length 3, and core lists of
+// length 4 on the canonical schedule.
 func DefaultPlan(tier string, full bool) []LenPlan {
 	k := len(Alphabet)
+	short := []LenPlan{{0, Unbounded, NotRun, k}, {1, Unbounded, Unbounded, k}, {2, Unbounded, Unbounded, k}}
 	if tier == "thorough" {
 		if !full {
-			return []LenPlan{{0, Unbounded, NotRun, k}, {1, Unbounded, Unbounded, k}, {2, Unbounded, Unbounded, k}, {3, First, First, k}, {4, First, NotRun, k}}
+			return append(short, LenPlan{3, First, First, k}, LenPlan{4, First, NotRun, CoreK})
 		}
-		return []LenPlan{{0, Unbounded, NotRun, k}, {1, Unbounded, Unbounded, k}, {2, Unbounded, Unbounded, k}, {3, 0, First, k}, {4, First, NotRun, k}}
+		return append(short, LenPlan{3, 0, NotRun, CoreK}, LenPlan{3, First, First, k}, LenPlan{4, First, NotRun, CoreK})
 	}
-	return []LenPlan{{0, Unbounded, NotRun, k}, {1, Unbounded, Unbounded, k}, {2, Unbounded, Unbounded, k}, {3, First, First, k}}
+	return append(short, LenPlan{3, First, NotRun, k}, LenPlan{3, NotRun, First, CoreK})
 }
 
 // Encode renders a plan in the VERIF_C20_PLAN syntax.
